@@ -1287,7 +1287,7 @@ func (interp *Interpreter) cfg(root *node, sc *scope, importPath, pkgName string
 					}
 					n.findex = notInFrame
 					n.gen = nop
-				case bname == "len" && isInConstOrTypeDecl(n):
+				case bname == "len" && (isInConstOrTypeDecl(n) || isConstString(n.child[1])):
 					t := n.child[1].typ.TypeOf()
 					for t.Kind() == reflect.Ptr {
 						t = t.Elem()
@@ -3359,6 +3359,11 @@ func isBoolAction(n *node) bool {
 		return true
 	}
 	return false
+}
+
+// isConstString returns true if node is an untyped string constant, possibly folded.
+func isConstString(n *node) bool {
+	return n.rval.IsValid() && isConstantValue(n.rval.Type()) && vConstantValue(n.rval).Kind() == constant.String
 }
 
 func isBlank(n *node) bool {
